@@ -152,7 +152,7 @@ def normInfBy {α} (absf : α → K) (a : Array α) : Res K :=
   match a[0]? with
   | none => .error .range
   | some x0 =>
-    .ok ((a.extract 1 a.size).foldl (fun r x => if ScalarExt.lt r (absf x) then absf x else r) (absf x0))
+    .ok ((a.extract 1 a.size).foldl (fun r x => if ScalarExt.lt r (absf x) || !(absf x == absf x) then absf x else r) (absf x0))
 def normInf (a : Array K) : Res K := normInfBy Transc.fabs a
 def normInfC (a : Array (Cx K)) : Res K := normInfBy Cx.abs a
 
